@@ -3,12 +3,13 @@
    not at all; an order's recorded fill completes it exactly when the filled amount reaches the ordered amount.
    Proved over whole histories: 0 <= filled <= amount for every order in every reachable state, ids = positions.
    Proved over whole histories: a closed order never changes again (Structure.v: the only records an operation rewrites
-   are those of orders that were open when it started).  C05_partial: exactness of the listings across the
-   periodic re-indexing and the event sequence are validated by the correspondence check (including histories of
-   hundreds of bars) and the monitor; see DESIGN.md for the invariants (I5, I6, I8) that remain to be mechanised. *)
+   are those of orders that were open when it started).  Proved over whole histories: the listing of open orders is exact in every reachable state, wherever the periodic
+   re-indexing falls (IndexProofs.v).  C05_partial: the sequence of order events (one per acceptance, fill and
+   closure, in time order, the last equal to the final state) and the by-state filters of get_orders are validated by the
+   correspondence check (including histories of hundreds of bars) and the monitor. *)
 From Coq Require Import ZArith QArith List.
 From Basana Require Import Num.DecQ Exchange.Model Exchange.AcctProofs Exchange.StepProofs Exchange.OpProofs
-     Exchange.OrderProofs Exchange.LifeProofs Exchange.Prims Exchange.Structure Exchange.LedgerProofs Exchange.FillBounds.
+     Exchange.OrderProofs Exchange.LifeProofs Exchange.Prims Exchange.Structure Exchange.LedgerProofs Exchange.FillBounds Exchange.IndexProofs.
 Import ListNotations.
 Open Scope Q_scope.
 
@@ -95,3 +96,15 @@ Example C05_final_nonvacuous :
   | None => False
   end.
 Proof. vm_compute. split; reflexivity. Qed.
+
+(* in every reachable state the listing of open orders (optionally of one pair) contains exactly the ids of the open orders
+   (of that pair), each once -- however long the history and wherever the re-indexing of the container falls *)
+Theorem C05_listing_exact_in_every_reachable_state : forall c initial ops p id,
+  cfg_ok c -> ops_ok ops ->
+  let s := run c (init_st initial) ops in
+  (In id (snd (list_open s p)) <->
+   exists o, get_order s id = Some o /\ is_open o = true /\
+             match p with Some pp => pair_eqb (o_pair o) pp = true | None => True end) /\
+  NoDup (snd (list_open s p)).
+Proof. exact listing_exact. Qed.
+Print Assumptions C05_listing_exact_in_every_reachable_state.
